@@ -212,6 +212,88 @@ def isqrt_py(x):
     import math
     return math.isqrt(x)
 
+def iroot_py(x, n):
+    """floor of the n-th root (binary search on the bit length, exact)"""
+    if x < 2:
+        return x
+    lo, hi = 0, 1 << (x.bit_length() // n + 1)
+    while lo + 1 < hi:
+        mid = (lo + hi) // 2
+        if mid ** n <= x:
+            lo = mid
+        else:
+            hi = mid
+    return lo
+
+def k_candidates(rng, j, extra, n=2):
+    """integers of bit length exactly j: both ends and their neighbours, the quarter points, the roots k at which k^n
+    crosses a power of two (k ~ 2^(j - i/n): the bit length of the RADICAND changes there — e.g. k ~ 2^26.5 is where
+    k^2 leaves the 53 bits of an f64), `extra` random ones"""
+    lo, hi = 1 << (j - 1), (1 << j) - 1
+    ks = {lo, hi, min(hi, lo + 1), max(lo, hi - 1), lo + (hi - lo) // 4, lo + (hi - lo) // 2, lo + 3 * (hi - lo) // 4}
+    for i in range(1, n):
+        r = iroot_py(1 << (n * j - i), n)
+        ks.update(k for k in (r - 1, r, r + 1) if lo <= k <= hi)
+    for _ in range(extra):
+        ks.add(rng.randrange(lo, hi + 1))
+    return sorted(ks)
+
+def power_sweep(rng, tier):
+    """perfect powers and their neighbours over ALL magnitudes of the root (seeded-change miss, round 4: a std-only
+    f64 fast path in the primitive sqrt_rem was wrong only for k^2 - 1 with 2^26 < k < 2^26.5 — far from the type's
+    ends).  For every primitive width and for 1-/2-/3-word UBig/IBig: for EVERY bit length j of the root k (up to
+    width/n) the roots {2^(j-1), 2^(j-1)+1, 2^j-2, 2^j-1, random j-bit} and the radicands k^n - 1, k^n, k^n + 1, through
+    sqrt / sqrt_rem / cbrt / cbrt_rem / nth_root (the primitive ops run both the `_rem` and the plain form)."""
+    q = tier == "quick"
+    extra = 3 if q else 10
+    for ty in ["u8", "u16", "u32", "u64", "u128"]:
+        bits = int(ty[1:])
+        for n, op in ((2, "p.sqrtrem"), (3, "p.cbrtrem")):
+            for j in range(1, bits // n + 2):
+                for k in k_candidates(rng, j, extra, n):
+                    for d in (-1, 0, 1):
+                        x = k ** n + d
+                        if 0 <= x < (1 << bits):
+                            yield Case(op, [ty, hx(x)])
+    for n in [2, 3, 4, 5, 6, 7, 8, 9, 10, 11, 13, 16, 17, 31, 32, 33, 63, 64, 65]:
+        for j in range(1, 192 // n + 2):
+            for k in k_candidates(rng, j, extra, min(n, 4)):
+                for d in (-1, 0, 1):
+                    x = k ** n + d
+                    if x < 0:
+                        continue
+                    ops = [("u.nthroot", [hx(x), dec(n)])]
+                    if n == 2:
+                        ops = [("u.sqrtrem", [hx(x)]), rng.choice([("u.sqrt", [hx(x)]), ("i.sqrt", [hx(x)]), ("u.nthroot", [hx(x), "d:2"]), ("i.nthroot", [hx(x), "d:2"])])]
+                    elif n == 3:
+                        sx = x if rng.random() < 0.5 else -x
+                        ops = [("u.cbrtrem", [hx(x)]), rng.choice([("u.cbrt", [hx(x)]), ("i.cbrt", [hx(sx)]), ("u.nthroot", [hx(x), "d:3"]), ("i.nthroot", [hx(sx), "d:3"])])]
+                    elif rng.random() < 0.3:
+                        sx = -x if (n % 2 == 1 and rng.random() < 0.5) else x
+                        ops.append(("i.nthroot", [hx(sx), dec(n)]))
+                    for op, args in ops:
+                        yield Case(op, args)
+
+def ilog_sweep(rng, tier):
+    """base^e - 1, base^e, base^e + 1 for EVERY e while the power stays below ~3 words (small bases) / ~10 words
+    (word, double-word and multi-word bases): every boundary of the first-guess estimators of log_dword /
+    log_word_base / log_large, not a sample of them"""
+    bases = [2, 3, 4, 5, 6, 7, 8, 9, 10, 16, 36, 255, 256, 1000, 65535, 65536, (1 << 32) - 1, 1 << 32, (1 << 32) + 1, 10 ** 9,
+             1 << 63, (1 << 64) - 1, 1 << 64, (1 << 64) + 1, 10 ** 19, 10 ** 20, (1 << 127) - 1, 1 << 127, (1 << 128) - 1,
+             1 << 128, (1 << 128) + 1, 10 ** 40, (1 << 192) + 5]
+    for b in bases:
+        limit = 200 if b < (1 << 32) else 640
+        e = 0
+        while (b ** e).bit_length() <= limit:
+            for d in (-1, 0, 1):
+                x = b ** e + d
+                if x >= 1:
+                    if rng.random() < 0.8:
+                        yield Case("u.ilog", [hx(x), hx(b)])
+                    else:
+                        yield Case("i.ilog", [hx(signed(rng, x)), hx(b)])
+            e += 1
+
 def echo_cases(inner, nostd):
     """log2_bounds promises an enclosure, not bit patterns: run the harness over `inner` = [(op, args)] first and
     wrap each answer into an echo case `lb <answer> <op> <args…>` (registered std build) or `ns …` (harness built
@@ -363,6 +445,11 @@ def generate(rng, tier):
         bits = int(1.6 * n) - rng.randrange(0, 3)
         yield Case("u.nthroot", [hx((1 << (bits - 1)) + rng.getrandbits(bits - 2)), dec(n)])
         yield Case("i.nthroot", [hx(-((1 << (bits - 1)) + rng.getrandbits(bits - 2))), dec(n + 1 - n % 2)])
+    # ---- perfect powers +-1 over every magnitude of the root, every width; base^e +-1 for every e
+    for c in power_sweep(rng, tier):
+        yield c
+    for c in ilog_sweep(rng, tier):
+        yield c
     # ---- ilog / remove
     for i in range(500 if q else 9000):
         x, b = ilog_pair(rng, tier)
@@ -498,6 +585,7 @@ def generate(rng, tier):
 REFINED = ["gcd_ops.rs dispatch (gcd / gcd_ext over inline/heap operands) and IBig sign handling", "gcd_large_dword",
            "gcd::gcd_in_place = lehmer::gcd_in_place: the whole multi-word loop (highest_word_normalized / highest_dword_normalized alignment, lehmer_guess / lehmer_guess_dword, Euclidean fallback, lehmer_step, final word / dword gcd) returns and returns the gcd (lehmer_gcd_correct, gcd_spec)",
            "lehmer::gcd_ext_in_place: the whole multi-word loop with cofactor tracking (t0 += q*t1 on the Euclidean fallback, lehmer_ext_step, swapped flag as sign, final div_by_word + single-word gcd_ext, |b| = |cx|*t0 + |cy|*t1) returns and meets g = gcd, lhs | g - rhs*b (lehmer_gcd_ext_correct, gcd_ext_spec)",
+           "lehmer::gcd_ext_in_place buffer-length claims: t1*x + t0*y = lhs through every Euclidean / Lehmer step for WHATEVER quotients the guess commits (only det = 1 is used), hence t0, t1 <= lhs; a committed Lehmer step leaves both combined values strictly positive, so y = 0 arises only from a Euclidean step; cofactor bounds |s|*g <= b, |t|*g <= a of the primitive gcd_ext; the returned |b| satisfies |b|*g <= lhs resp. |b| <= lhs at EVERY exit — the lhs_len(+1)-word buffers suffice and the debug_assert_zero! carries are zero (gcd_ext_cofactors_fit_partial, gcd_ext_prim_cofactor_bounds, gcd_ext_b_fits_partial, gcd_ext_b_fits)",
            "gcd::gcd_ext_word / gcd_ext_dword (coefficient recovery |b| = q*|t| + |s|)", "gcd_ext_large post-processing (one product + exact division)",
            "base ring/gcd.rs unchecked_gcd_ext (Euclid with cofactors)", "base ring/gcd.rs Gcd::gcd + unchecked_gcd (binary gcd with the one-division shortcut; (a|b).trailing_zeros() = min proved)",
            "base ring/gcd.rs two-width unchecked_gcd_ext of u128 (full-width Euclid, half-width loop, recombined cofactors)", "lehmer_guess / lehmer_step cofactor matrix (determinant 1 => gcd preserved; committed cofactors never make a step negative; every iteration decreases x+y)",
@@ -510,7 +598,7 @@ REFINED = ["gcd_ops.rs dispatch (gcd / gcd_ext over inline/heap operands) and IB
            "log_dword / log_word_base / log_large correction loops for any admissible first guess", "UBig::remove (squaring tower up, then down)",
            "IBig::nth_root / sqrt / cbrt sign rules and panics",
            "no_std table estimator log2_fp8 / ceil_log2_fp8 over all u16, the u8 powering cases and the top-16-bit + shift lifting to wider integers (integer-level enclosure theorems by kernel evaluation)"]
-FRONTIER = ["gcd_ext_in_place buffer-length claims (t0, t1 fit lhs_len+1 words; |b| fits lhs_len words — the debug_assert_zero on the carries): values are modelled unbounded; a dropped carry would falsify the Bezout check the harness performs on every call. Missing invariant: |t0| <= |t1| <= lhs/y under the x > y normalisation (needs the guessed quotients to be the true quotients, i.e. completeness of Collins' condition, not only non-negativity)",
+FRONTIER = ["gcd_ext_in_place buffer-length claims, what is left: the word loops inside lehmer_ext_step / add_signed_mul are modelled at value level (their results a*t0 + b*t1, c*t0 + d*t1, t0 + q*t1 are the next coefficients, proved <= lhs; the partial sums inside the in-place loops are not separately bounded) and the claim is proved at the exit of the main loop and for the returned |b|, not restated for every intermediate iteration (the invariant t1*x + t0*y = lhs is inductive, so it holds there too)",
             "base ring/root.rs u32 / u64 Newton estimate stages and the u128 sqrt step: TOTALITY (no arithmetic overflow, i.e. the estimate is an under-estimate that fits) is not proved above u16 — the routines are mirrored and executed with checked arithmetic (an overflow would print as `panic ArithmeticOverflow` and disagree with the real code), and their answers are proved to be the floor root whenever they answer (prim_sqrt_rem_sound incl. u128, prim_cbrt_rem_sound up to u64). `sqrt_rem_driver_spec` states sqrt_rem exactly as the driver runs it for the 64-bit word with this totality of the u64 / u128 routines as its ONLY hypothesis",
             "base ring/root.rs u128 normalized_cbrt_rem (B = 2^22 cube-root step over the u64 routine + `while r < 0` descent): mirrored and executed (Tie B compares the real code with the mirrored algorithm on boundary / dense-run classes), no theorem; the floor-root relation is evaluated beside every result",
             "f32 log2 first guesses of ilog: a parameter with the hypothesis the code asserts (base^est <= x)",
@@ -523,7 +611,8 @@ RULE = ("gcd pairs from {0/0, one zero, equal, common factor x cofactor size cla
         "leading-zero count) class of sqrt_rem_large incl. shift = 64 and > 64; Karatsuba q_top class: high 2(n - n/2) words = t^2 + 2t with normalised t "
         "(r1 = 2*s1, r1_top and quotient carry both set, q = B) for n in 2..12, 16, 17, 33, plain / nested / cut to odd word counts and even bit shifts; the same shape "
         "(hi u64 = t^2 + 2t) for the u128 primitive} x n in {0..10, 16, 63..65, 127..129, 1000, bit length +-1}; "
-        "ilog over bases {2, 2^k, 10, word, dword, multi-word} x {0, 1, base^e, base^e +-1, random}; remove with known multiplicity; "
+        "perfect-power sweep: for every primitive width u8..u128 and for 1-/2-/3-word UBig/IBig, for EVERY bit length j of the root k (1..width/n) the roots {2^(j-1), 2^(j-1)+1, 2^j-2, 2^j-1, quarter points, the k ~ 2^(j-i/n) at which k^n crosses a power of two (+-1), random j-bit} and the radicands k^n-1, k^n, k^n+1 through sqrt/sqrt_rem/cbrt/cbrt_rem/nth_root (n in 2..11, 13, 16, 17, 31..33, 63..65); "
+        "ilog over bases {2, 2^k, 10, word, dword, multi-word} x {0, 1, base^e, base^e +-1, random} and base^e-1, base^e, base^e+1 for EVERY e below 200 bits (small bases) / 640 bits (word and larger bases); remove with known multiplicity; "
         "log2_bounds of UBig/IBig/FBig<2>/DBig/RBig/Relaxed/u8..u128 incl. values next to 1 and exact powers of two, f32/f64 by bit pattern "
         "(specials, subnormals, sampled/all exponents x boundary mantissas); the same through a harness built WITHOUT the std feature "
         "(table estimator: all u8, u16 blocks, u32..u128 with top-16-bit boundary patterns, UBig, f32/f64); primitives: "
@@ -558,5 +647,5 @@ THEOREMS = ["Dashu.Props.C12." + t for t in ["gcd_prim_spec", "trailing_zeros_or
             "log2_table_sound", "log2_u8_table_sound", "log2_wide_table_sound", "nth_root_zero_asIs_counterexample", "sqrt_rem_asIs_counterexample", "ibig_cbrt_asIs_counterexample",
             "ilog_zero_asIs_counterexample", "gcd_ext_post_precondition_counterexample",
             "zimmermann_step", "sqrt_rem_42_correct", "sqrt_rem_karatsuba_correct", "sqrt_rem_kernel_eq_spec", "sqrt_rem_mirrored_spec", "nth_root_mirrored_eq",
-            "fix_sqrt_error_sound", "fix_cbrt_error_sound", "prim_sqrt_rem_sound", "prim_cbrt_rem_sound", "prim_root_u8_total", "prim_root_u16_total", "prim_exact_of_total", "sqrt_rem_driver_spec"]]
+            "fix_sqrt_error_sound", "fix_cbrt_error_sound", "prim_sqrt_rem_sound", "prim_cbrt_rem_sound", "prim_root_u8_total", "prim_root_u16_total", "prim_exact_of_total", "sqrt_rem_driver_spec", "gcd_ext_cofactors_fit_partial", "gcd_ext_prim_cofactor_bounds", "gcd_ext_b_fits_partial", "gcd_ext_b_fits"]]
 READY = True
